@@ -53,6 +53,8 @@ PerOerVariants(n, v) ==
   (IF IsExtSeq(Env, TRef(n))
    THEN {VarPlan("UPER", UPER(Env, Newer(Env, TRef(n)), NewerVal(v, x)), "unknown-extension") : x \in {<<7>>, <<1, 2, 3>>, Zeros(130)}}
         \cup {VarPlan("OER", OER(Env, Newer(Env, TRef(n)), NewerVal(v, x)), "unknown-extension") : x \in {<<7>>, <<1, 2, 3>>, Zeros(130)}}
+        \cup {VarPlan("UPER", UPER(Env, NewerN(Env, TRef(n), k), NewerValN(v, <<7>>, k)), "many-unknown-extensions") : k \in {63, 64, 65, 130}}
+        \cup {VarPlan("OER", OER(Env, NewerN(Env, TRef(n), k), NewerValN(v, <<7>>, k)), "many-unknown-extensions") : k \in {65}}
    ELSE {})
 XerVariants(n, v) ==
   IF v \notin XerSubset(n) THEN {}
